@@ -27,7 +27,7 @@ CLAIMED = {
         "DESIGN.md section 2, C03"),
     "C04": (
         "constant folding of the key tables against a circle-of-fifths oracle; partial evaluation (specialisation) of the keys.py functions to each of the 30 rows of the constant key table; symbolic evaluation of get_key on in-range / out-of-range signature symbols; abstract evaluation of the diatonic steps for 30 keys x 7 letters x symbolic accidentals",
-        "Static: keys/major_keys/minor_keys/base_scale equal the oracle; for every table row the residual of get_notes, get_key_signature, get_key_signature_accidentals, relative_major/minor and Key.__init__ equals the oracle value (tonic first, consecutive letters, major / natural-minor pattern, signature count/sign/order); get_key selects row n + offset for -7..7 and raises RangeError on both unbounded sides; unknown keys are rejected; second..seventh return the key note k letters above for every spelling of the start note.",
+        "Static: keys/major_keys/minor_keys/base_scale equal the oracle; for every table row the residual of get_notes, get_key_signature, get_key_signature_accidentals, relative_major/minor and Key.__init__ equals the oracle value (tonic first, consecutive letters, major / natural-minor pattern, signature count/sign/order); get_key selects row n + offset for -7..7 and raises RangeError on both unbounded sides; unknown keys are rejected; second..seventh return the key note k letters above for every spelling of the start note. Rejections include the empty string and go through Key(...) as well.",
         "The quantifier '30 keys' is the constant table in the source, so specialisation to each row is exhaustive. Memo transparency is decided under C15. Trusted: CPython ast, abstract evaluator (variants/c04.py), oracle in engine/notesdom.py (self-checked against the step patterns).",
         "DESIGN.md section 2, C04"),
     "C05": (
@@ -42,17 +42,17 @@ CLAIMED = {
         "DESIGN.md section 2, C07"),
     "C08": (
         "specialisation of chords.triads/sevenths and all function/numeral accessors to the 30 key-table rows; fold and count-down summaries of the numeral parser/formatter on symbolic prefixes; specialisation of to_chords / progressions.determine / the substitution rules over their finite alphabets; effect check of substitute()'s argument",
-        "Static: in every key the 7 triads and sevenths and all 14 function names and numeral aliases (either case, with 7) equal the stacks of thirds inside the oracle key notes; parse_string yields (upper-cased numeral, #sharps - #flats, suffix) for any accidental prefix, tuple_to_string prepends exactly |acc| characters of the right kind for -6..6 and the two are inverse on well-formed numerals; to_chords denotes the right chord for numerals x case x {'', '7'} x prefixes -3..3, rebuilds chord suffixes on the degree's root, maps lists element-wise and answers [] for unknown numerals; every diatonic triad/seventh of a major key gets its function/numeral; each substitution rule keeps its promise and returns well-formed numerals; substitute() leaves the caller's list unchanged.",
+        "Static: in every key the 7 triads and sevenths and all 14 function names and numeral aliases (either case, with 7) equal the stacks of thirds inside the oracle key notes; parse_string yields (upper-cased numeral, #sharps - #flats, suffix) for any accidental prefix, tuple_to_string prepends exactly |acc| characters of the right kind for -6..6 and the two are inverse on well-formed numerals; to_chords denotes the right chord for numerals x case x {'', '7'} x prefixes -3..3, rebuilds chord suffixes on the degree's root, maps lists element-wise and answers [] for unknown numerals; every diatonic triad/seventh of a major key gets its function/numeral; each substitution rule keeps its promise and returns well-formed numerals; substitute() leaves the caller's list unchanged. The diminished sevenths substitute() offers for one chord form one minor-third cycle.",
         "Quick tier uses 7 of the 30 keys for to_chords and 5 of the 15 major keys for determine (thorough: all). Not decided: substitution recursion beyond depth 2; prefixes beyond +-6. Trusted: CPython ast, abstract evaluator (variants/c08.py), C04/C06/C07 oracles and models.",
         "DESIGN.md section 2, C08"),
     "C09": (
         "constant folding of the value tables; evaluation of the value arithmetic over exact rational functions; specialisation of value.determine to all constructible values and interval-domain evaluation on +-1% neighbourhoods; recurrent-set (non-termination) check of the meter loop; evaluation of the meter predicates on the residue/threshold partition",
-        "Static: tables equal 2^k and the exact tuplet multiples; add/subtract are reciprocal duration addition/subtraction and mutually inverse as rational functions, dots/tuplet/triplet/quintuplet/septuplet equal their closed forms; every value built from a base with 0-4 dots or a 3:2/5:4/7:4 ratio is analysed as exactly that class, and every path of determine over the interval [0.99c, 1.01c] around each undotted / single-dotted recognised value c returns c's class; no interval of beat units is a recurrent set of the halving loop, integer units are valid exactly for 1,2,4,...; the four meter predicates match their definitions on counts -3..18 x valid/invalid unit.",
+        "Static: tables equal 2^k and the exact tuplet multiples; add/subtract are reciprocal duration addition/subtraction and mutually inverse as rational functions, dots/tuplet/triplet/quintuplet/septuplet equal their closed forms; every value built from a base with 0-4 dots or a 3:2/5:4/7:4 ratio is analysed as exactly that class, and every path of determine over the interval [0.99c, 1.01c] around each undotted / single-dotted recognised value c returns c's class; no interval of beat units is a recurrent set of the halving loop, integer units are valid exactly for 1,2,4,...; the four meter predicates match their definitions on counts -3..18 x valid/invalid unit. Integers beyond 2^53 and 2^1024, infinity and NaN are instances of the termination / validity rule (non-termination is proved by a repeating concrete loop state).",
         "Exact-value checks use the module's own float constructors (float equality as written); not decided: round-trip float equality of add/subtract, tolerance for >= 2 dots. Trusted: CPython ast, abstract evaluator + numeric domains (variants/c09.py), exact rational oracle.",
         "DESIGN.md section 2, C09"),
     "C10": (
         "abstract interpretation of the Note class on abstract objects: symbolic name/octave for __int__/from_int, trichotomy tables for the six comparisons, symbolic in-range / out-of-range evaluation of the setters and text parser, count-down summaries of the Helmholtz writer and fold evaluation of the reader on the writer's shapes, who-may-write enumeration, specialisation of the Hz pair over 0..127",
-        "Static: int(Note) == 12*octave + natural + sharps - flats for every letter, accidental string and octave; int(from_int(i)) == i as linear forms; each rich comparison agrees with the ordering of the two integers on every path and distinguishes all three orderings; set_note parses 'Name' and 'Name-octave', rejects malformed names, the copy constructor forwards name/octave/velocity/channel; velocity outside 0..127 and channel outside 0..15 are rejected on both unbounded sides and no other code writes those attributes; Helmholtz output has the right case and exactly 2-octave commas / octave-3 primes for a symbolic octave, and reading it back restores letter, accidentals and octave for any number of marks; A-4 sits at the standard pitch, frequency doubles per octave and from_hertz inverts to_hertz over 0..127 (3 pitches, detuned -40/0/+40 cents).",
+        "Static: int(Note) == 12*octave + natural + sharps - flats for every letter, accidental string and octave; int(from_int(i)) == i as linear forms; each rich comparison agrees with the ordering of the two integers on every path and distinguishes all three orderings; set_note parses 'Name' and 'Name-octave', rejects malformed names, the copy constructor forwards name/octave/velocity/channel; velocity outside 0..127 and channel outside 0..15 are rejected on both unbounded sides and no other code writes those attributes; Helmholtz output has the right case and exactly 2-octave commas / octave-3 primes for a symbolic octave, and reading it back restores letter, accidentals and octave for any number of marks; A-4 sits at the standard pitch, frequency doubles per octave and from_hertz inverts to_hertz over 0..127 (3 pitches, detuned -40/0/+40 cents). Velocity and channel given to the constructor are checked and stored for Note(name), Note(int) and Note(note), by keyword and by dynamics dict.",
         "Hz clause is a specialisation over the finite MIDI range with host floats, not a proof for all detunings. Independence of copies is decided under C15. Trusted: CPython ast, abstract evaluator (variants/c10.py), C01 summaries.",
         "DESIGN.md section 2, C10"),
     "C11": (
@@ -62,32 +62,32 @@ CLAIMED = {
         "DESIGN.md section 2, C11"),
     "C12": (
         "writer-discipline (typestate) evaluation of NoteContainer.add_note on abstract containers: membership test fails on every element -> append -> sort before return; who-may-write enumeration of self.notes; decision tables of octave inference, polymorphic add/remove dispatch and the removal predicate; call-sequence checks of the shorthand constructors; pair-enumeration check of the consonance test",
-        "Static: on every path of add_note a note is stored only after comparing unequal (pitch equality) to every stored note and the list is sorted again before returning, no other method writes self.notes outside the enumerated writers => sorted and duplicate-free after every add/remove by induction; bare names get octave 4 when empty, else the top note's octave (+1 exactly when the candidate would lie below the top note); add_notes/remove_notes/+/- dispatch each input form to the right single-note calls; removal by name keeps exactly the notes whose name differs or whose octave differs when one is given, removal by Note is by pitch; the shorthand constructors empty the container first and add the core result; _consonance_test visits every unordered pair once and stops at the first failure, the four predicates bind the right core predicate and flag; len/in/[]/== follow the content.",
+        "Static: on every path of add_note a note is stored only after comparing unequal (pitch equality) to every stored note and the list is sorted again before returning, no other method writes self.notes outside the enumerated writers => sorted and duplicate-free after every add/remove by induction; bare names get octave 4 when empty, else the top note's octave (+1 exactly when the candidate would lie below the top note); add_notes/remove_notes/+/- dispatch each input form to the right single-note calls; removal by name keeps exactly the notes whose name differs or whose octave differs when one is given, removal by Note is by pitch; the shorthand constructors empty the container first and add the core result; _consonance_test visits every unordered pair once and stops at the first failure, the four predicates bind the right core predicate and flag; len/in/[]/== follow the content. Bare names are voiced into [top, top + 12) for symbolic P(top), P(new) in -2..13 through the real comparison operators; removing a container from itself empties it.",
         "The invariant over arbitrary histories is an induction over the checked writers, not an exploration. Trusted: CPython ast, abstract evaluator (variants/c12.py), C10 (Note ordering/equality by int()).",
         "DESIGN.md section 2, C12"),
     "C13": (
         "abstract interpretation of Bar on symbolic rational beat/length/value: path-wise effect check of place_notes (accept/refuse), algebraic inspection of the accepting comparison (operands, unbounded escape, tolerance window), inverse check of remove_last_entry, formula checks of the derived quantities, slot-writer checks",
-        "Static: an accepted placement appends exactly [beat before, value, normalised content] and advances the beat by exactly 1/value (so start beats are prefix sums), a refused one changes nothing and returns False; the gate is 'beat + 1/value <= length' up to a tolerance between 1e-12 and 1e-5 (above float drift, below the smallest gap between distinct totals, so it decides like exact rational arithmetic) or 'length == 0'; remove_last_entry subtracts 1/value of the last entry and drops exactly it; set_meter stores (count, unit) and count/unit for valid units, (0,0) -> 0.0, else MeterFormatError; space_left/value_left/'+'/is_full/__setitem__/place_notes_at/empty match their definitions.",
+        "Static: an accepted placement appends exactly [beat before, value, normalised content] and advances the beat by exactly 1/value (so start beats are prefix sums), a refused one changes nothing and returns False; the gate is 'beat + 1/value <= length' up to a tolerance between 1e-12 and 1e-5 (above float drift, below the smallest gap between distinct totals, so it decides like exact rational arithmetic) or 'length == 0'; remove_last_entry subtracts 1/value of the last entry and drops exactly it; set_meter stores (count, unit) and count/unit for valid units, (0,0) -> 0.0, else MeterFormatError; space_left/value_left/'+'/is_full/__setitem__/place_notes_at/empty match their definitions. Placing and removing again restores the exact float beats; only the (0, 0) meter is unbounded.",
         "Exactness of acceptance is decided through the tolerance window (assumes < ~10^5 entries per bar), not by exploring histories. Trusted: CPython ast, abstract evaluator + rational functions (variants/c13.py), C09.",
         "DESIGN.md section 2, C13"),
     "C14": (
         "None-flow and effect analysis of Track.add_notes by abstract evaluation with the instrument classes inlined and Bar methods recorded; decision tables of the range gate; new-bar rule and pass-through of key/meter; generator evaluation of get_notes; policy-driven evaluation of from_chords; selection discipline of Composition",
-        "Static: a rest (None) reaches place_notes of the last bar with no instrument and with every instrument class, a non-rest is placed only after can_play_notes answered true and raises InstrumentRangeError otherwise; note_in_range is lo <= note <= hi, can_play_notes unwraps containers/lists and requires all notes; a new bar is appended only for an empty track or a full last bar, built from the last bar's key and meter, and the result of place_notes on the last bar is returned; get_notes yields every (beat, value, content) of every bar in order, test_integrity checks all but the last bar; from_chords doubles the value per nesting level, places None as a rest and splits a refused chord into value_left and the remainder; add_track selects exactly the new index, add_note reaches exactly the selected tracks, '+' dispatches on the operand kind.",
+        "Static: a rest (None) reaches place_notes of the last bar with no instrument and with every instrument class, a non-rest is placed only after can_play_notes answered true and raises InstrumentRangeError otherwise; note_in_range is lo <= note <= hi, can_play_notes unwraps containers/lists and requires all notes; a new bar is appended only for an empty track or a full last bar, built from the last bar's key and meter, and the result of place_notes on the last bar is returned; get_notes yields every (beat, value, content) of every bar in order, test_integrity checks all but the last bar; from_chords doubles the value per nesting level, places None as a rest and splits a refused chord into value_left and the remainder; add_track selects exactly the new index, add_note reaches exactly the selected tracks, '+' dispatches on the operand kind. Concrete histories with the real Track / Bar / NoteContainer / Instrument classes against an exact Fraction model: refused items change nothing, range answers for every way of writing a note x every instrument class, chord lists with rests / nesting / items longer than a bar, no container stored twice, equality of tracks with rests and of compositions.",
         "No-loss/no-reorder over arbitrary add sequences follows from the per-call rules by induction and is not explored. Trusted: CPython ast, abstract evaluator (variants/c14.py), C13.",
         "DESIGN.md section 2, C14"),
     "C15": (
         "effect / alias / escape analysis: must-rebind analysis of class-level mutable defaults vs package-wide in-place mutation sites; escape analysis of memo tables by double abstract evaluation with object-identity comparison; parameter-mutation dataflow with alias tracking; who-may-write ownership table of module state and mutable default arguments; identity check of container copies; order-domain evaluation (case analysis over comparison outcomes on a strictly increasing symbolic table) of the fft lookup accelerator's invariant; positive fixtures for zero-count rules",
-        "Static: over core, containers, the MIDI writers/sequencer and extra.fft (492 functions): every class-level list/dict is rebound per instance on every __init__ path or never mutated in place; for a battery of 30+ public list-returning functions (all memoised ones, every function/numeral accessor, to_chords, from_shorthand, scales) two calls share no mutable object with each other or with module-level containers; no function mutates a parameter or an alias of it in place (two frozen, reasoned exceptions); module-level mutable state is written only by its frozen owner, no mutable default arguments; NoteContainer(other)/add_notes(other) do not share Note objects and Note.dynamics is fresh; fft._find_log_index: from any remembered (row, frequency) with the frequency in that row, every shortcut answer is the row f lies in, the search loop is entered from a start below f after the range check, in-loop answers are the row f lies in, and every state written keeps the invariant.",
+        "Static: over core, containers, the MIDI writers/sequencer and extra.fft (492 functions): every class-level list/dict is rebound per instance on every __init__ path or never mutated in place; for a battery of 30+ public list-returning functions (all memoised ones, every function/numeral accessor, to_chords, from_shorthand, scales) two calls share no mutable object with each other or with module-level containers; no function mutates a parameter or an alias of it in place (two frozen, reasoned exceptions); module-level mutable state is written only by its frozen owner, no mutable default arguments; NoteContainer(other)/add_notes(other) do not share Note objects and Note.dynamics is fresh; fft._find_log_index: from any remembered (row, frequency) with the frequency in that row, every shortcut answer is the row f lies in, the search loop is entered from a start below f after the range check, in-loop answers are the row f lies in, and every state written keeps the invariant. Results do not alias arguments; a failing request asked three times fails identically; per-object slots with class-level mutable defaults are rebound by __init__.",
         "Not decided: termination of fft._find_log_index's search loop and its fallback statements; value-independence of arbitrary call histories beyond purity + memo transparency. Trusted: CPython ast, effect analysis + evaluator (variants/c15.py, fixtures/fixpkg), the frozen tables in rules/c15.py.",
         "DESIGN.md section 2, C15"),
     "C16": (
         "abstract interpretation of the MIDI track walkers over a finite partition of track shapes with symbolic values/pitches/velocities in a byte-stream domain (pending-delta typestate + symbolic event decode against an event model); evaluation of framing constants, header/body agreement, controller argument order, key-signature bytes for all 30 keys, writer repeat loops; boundary specialisation of the VLQ encoder",
-        "Static: for every track shape in the partition (1-2 bars; entries: rest, empty, 1/2/3 notes, tempo-changing; with/without a MIDI instrument; rests leading/inner/trailing/across bar lines) every pending non-zero delay is emitted exactly once and the decoded stream equals the event model at symbolic absolute ticks (int(round(288/value)) per entry): note-on/off pairs with pitch+12, channel, velocity; tempo 60000000//bpm; bank select then program change on the first note's channel; time and key signature per bar; chunk and file headers have the right tags, lengths, format 1, 72 ticks and a track count equal to the emitted chunks; bank select is controller 0 on the given channel; each of the 30 keys (string or Key object) is written with its signed signature and mode; write_* repeat the whole content repeat+1 times into one MidiTrack per track; the VLQ encoder equals the standard on boundary neighbourhoods.",
+        "Static: for every track shape in the partition (1-2 bars; entries: rest, empty, 1/2/3 notes, tempo-changing; with/without a MIDI instrument; rests leading/inner/trailing/across bar lines) every pending non-zero delay is emitted exactly once and the decoded stream equals the event model at symbolic absolute ticks (int(round(288/value)) per entry): note-on/off pairs with pitch+12, channel, velocity; tempo 60000000//bpm; bank select then program change on the first note's channel; time and key signature per bar; chunk and file headers have the right tags, lengths, format 1, 72 ticks and a track count equal to the emitted chunks; bank select is controller 0 on the given channel; each of the 30 keys (string or Key object) is written with its signed signature and mode; write_* repeat the whole content repeat+1 times into one MidiTrack per track; the VLQ encoder equals the standard on boundary neighbourhoods. The same MidiTrack playing a track two and three times (repeat counts) keeps the rests that end the track.",
         "Shapes beyond 2 bars x 4 entries are covered by the symbolic per-entry argument, not enumerated. Float log in the VLQ length is checked on neighbourhoods only. Trusted: CPython ast, abstract evaluator + engine/mididom.py (variants/c16.py), the event model in rules/c16.py.",
         "DESIGN.md section 2, C16"),
     "C17": (
         "writer/reader agreement analysis: the writer's encoders are evaluated abstractly to bytes for representative parameters and fed to the reader's decoders (event parser, VLQ reader, header/chunk parsers, per-event arms of MIDI_to_Composition with the file parser summarised); specialisation of the reader's event loop to ten rhythm shapes fed with the writer's event stream (C16's stream rule discharged here too); rejection paths evaluated on malformed headers",
-        "Static: the reader decodes the writer's file header (format 1, track count, 72 ticks) and chunk length; note-on/off (incl. velocity 0 = off), program change and controller events come back with the fields the writer was given and the right number of bytes consumed; every one of the 30 keys, the tested meters, every tested bpm in 4..1000 (all of them in the thorough tier), track name, program number, pitch number, channel and velocity survive writer -> reader; the VLQ reader inverts the VLQ writer on boundary neighbourhoods; a bad header tag, track tag or format number raises.",
+        "Static: the reader decodes the writer's file header (format 1, track count, 72 ticks) and chunk length; note-on/off (incl. velocity 0 = off), program change and controller events come back with the fields the writer was given and the right number of bytes consumed; every one of the 30 keys, the tested meters, every tested bpm in 4..1000 (all of them in the thorough tier), track name, program number, pitch number, channel and velocity survive writer -> reader; the VLQ reader inverts the VLQ writer on boundary neighbourhoods; a bad header tag, track tag or format number raises. A file without tracks or tempo event is read.",
         "The reader's event loop (delta times -> entries/rests/bars) is decided on ten rhythm shapes with concrete tick lengths (leading, inner and bar-crossing rests, chords, three meters, dotted/triplet lengths): each must flatten to the (ticks, pitches) sequence it was written from; rhythms outside those shapes are not decided. Representative parameter values, not all 2^21 event encodings. Trusted: CPython ast, abstract evaluator + engine/mididom.py (variants/c17.py), C16.",
         "DESIGN.md section 2, C17"),
     "C18": (
@@ -97,17 +97,17 @@ CLAIMED = {
         "DESIGN.md section 2, C18"),
     "C19": (
         "abstract interpretation of the exporters: fold / count-down summaries of LilyPond pitch rendering; evaluation of the LilyPond container/bar/track/composition renderers on shapes with an independent subset reader decoding the produced text; evaluation of the MusicXML builders over an abstract DOM with move-on-append semantics and decoding of the resulting tree",
-        "Static: LilyPond note names are lower-cased letter + is/es per accidental in order + octave-3 primes or 3-octave commas for a symbolic octave; rests, single notes and chords with base values incl. longa/breve, dots and tuplet groups decode to the music they were built from; key (all 30 keys) and time are shown on request, from_Track shows them exactly on change, the header carries title/author/subtitle. MusicXML: no element is appended twice; per note step/alter/octave, chord marks on every chord note but the first, dot count, tuplet ratio and duration/divisions == exact length in quarter notes; meter, fifths, mode; matching unique part ids, measure numbers 1..n; titles, names and instrument names enter as text nodes unchanged; empty bars export.",
+        "Static: LilyPond note names are lower-cased letter + is/es per accidental in order + octave-3 primes or 3-octave commas for a symbolic octave; rests, single notes and chords with base values incl. longa/breve, dots and tuplet groups decode to the music they were built from; key (all 30 keys) and time are shown on request, from_Track shows them exactly on change, the header carries title/author/subtitle. MusicXML: no element is appended twice; per note step/alter/octave, chord marks on every chord note but the first, dot count, tuplet ratio and duration/divisions == exact length in quarter notes; meter, fifths, mode; matching unique part ids, measure numbers 1..n; titles, names and instrument names enter as text nodes unchanged; empty bars export. LilyPond header texts with double quotes / backslashes read back unchanged; standalone containers carry their tuplet ratio; the same Track added twice gives two parts with different ids.",
         "Not decided: serialisation/escaping (delegated to xml.dom.minidom), longa/breve in MusicXML, shapes beyond those enumerated (covered by the per-entry argument). Trusted: CPython ast, abstract evaluator + engine/domdom.py (variants/c19.py), C09.",
         "DESIGN.md section 2, C19"),
     "C20": (
         "abstract interpretation of the tuning arithmetic on abstract tunings (plain strings and courses, symbolic pitches, symbolic in/out-of-range strings and frets); comparison of find_fingering with a brute-force specification under summarised fret tables; evaluation of the registry search over a model registry; value-kind flow rules (a course list reaching a Note operation, a float reaching range / repetition / from_Bar); column-wise decoding of a rendered model bar",
-        "Static: find_frets reports the semitone distance to the open string (first note of a course) exactly when it lies in 0..maxfret, else None, one entry per string; get_Note is open string + fret and raises RangeError on all four unbounded out-of-range sides; find_fingering returns exactly the injective string assignments whose non-open frets span less than the maximum distance, ordered by total frets; get_tuning(s) return only tunings satisfying every given constraint with prefix / exact-name semantics; every consumer of tuning.tuning accepts courses; _get_width and the page loops produce integers and every bar is rendered once; a rendered bar has one equally long line per string and decodes column by column to the entries' fingerings.",
+        "Static: find_frets reports the semitone distance to the open string (first note of a course) exactly when it lies in 0..maxfret, else None, one entry per string; get_Note is open string + fret and raises RangeError on all four unbounded out-of-range sides; find_fingering returns exactly the injective string assignments whose non-open frets span less than the maximum distance, ordered by total frets; get_tuning(s) return only tunings satisfying every given constraint with prefix / exact-name semantics; every consumer of tuning.tuning accepts courses; _get_width and the page loops produce integers and every bar is rendered once; a rendered bar has one equally long line per string and decodes column by column to the entries' fingerings. find_chord_fingering: every returned row on oracle tables is sound (one entry per string, only chord notes, all names, span, fingers). from_Composition renders every bar with its own track's tuning; empty bar, empty composition, string names of different lengths and foreign string / fret hints render.",
         "Not decided: find_chord_fingering, whole-composition tablature text, the 76 concrete registered tunings (rules are over abstract tunings). Trusted: CPython ast, abstract evaluator (variants/c20.py), brute-force specification and decoder in rules/c20.py.",
         "DESIGN.md section 2, C20"),
     "C06": (
         "offset-domain abstract interpretation of every chord builder (interval constructors summarised by their C02 post-condition) against a meaning-keyed chord-theory oracle; table agreement; abstract evaluation of the shorthand parser on root shapes x keys, aliases, slash, polychord, NC, list and malformed classes",
-        "Static: each of the shorthand builders (incl. the lambda) yields, for 7 root letters x arbitrary accidentals, exactly the (letter, semitone) list its meaning prescribes; chord_shorthand and chord_shorthand_meaning have equal key sets; from_shorthand maps every key, every min/mi/-/maj/ma alias spelling, slash basses, polychords, NC and list input to the right builder result and rejects unknown suffixes / bad roots / bad basses with the documented errors.",
+        "Static: each of the shorthand builders (incl. the lambda) yields, for 7 root letters x arbitrary accidentals, exactly the (letter, semitone) list its meaning prescribes; chord_shorthand and chord_shorthand_meaning have equal key sets; from_shorthand maps every key, every min/mi/-/maj/ma alias spelling, slash basses, polychords, NC and list input to the right builder result and rejects unknown suffixes / bad roots / bad basses with the documented errors. Degenerate strings ('' , 'C|', 'C/', a second bass, garbage after the bass) are rejected with FormatError / NoteFormatError; 'C|NC', a slash chord as left polychord partner and 'NC' asked again after an edit of an earlier answer are decided.",
         "Letter and pitch class are decided, not the spelling of each note (that is C02's normalisation). Nested slash/polychord combinations beyond one level are not decided. Trusted: CPython ast, abstract evaluator (variants/c06.py), ORACLE table in rules/c06.py, C01/C02/C04 summaries.",
         "DESIGN.md section 2, C06"),
 }
